@@ -30,6 +30,7 @@ type ClientOpts struct {
 	HeldEvery      int           // keep every n-th packet for re-hashing (default 1)
 	Mutate         func(*gortsplib.Client)
 	URLOverride    string // full URL instead of ts.URL(Path)
+	OnlyMedias     []int  // set up only these medias of the description (default: all)
 }
 
 // PlayClient is a reading client with a delivery log.
@@ -155,7 +156,17 @@ func (pc *PlayClient) Start() error {
 		return fmt.Errorf("describe: %w", err)
 	}
 	pc.Desc = desc
-	if err := pc.C.SetupAll(desc.BaseURL, desc.Medias); err != nil {
+	if len(pc.opts.OnlyMedias) > 0 {
+		for _, i := range pc.opts.OnlyMedias {
+			if i >= len(desc.Medias) {
+				continue
+			}
+			if _, err := pc.C.Setup(desc.BaseURL, desc.Medias[i], 0, 0); err != nil {
+				pc.C.Close()
+				return fmt.Errorf("setup: %w", err)
+			}
+		}
+	} else if err := pc.C.SetupAll(desc.BaseURL, desc.Medias); err != nil {
 		pc.C.Close()
 		return fmt.Errorf("setup: %w", err)
 	}
